@@ -242,7 +242,10 @@ def families(args):
     progs += ppfamily.cond_programs('quick', args.seed)[::(10 if args.tier == 'quick' else 3)]
     progs = [p for p in progs if '__LINE__' not in p.label]
     fam2 = ppprop.Family('fixedpoint', progs, None, ('tokens',), custom_work=fixed_work)
-    return [fam1, fam2]
+    import lexcases, gprod
+    lw = lexcases.work_factory(gprod.productions(E.prog()))
+    fam3 = ppprop.Family('bounded-lexical', [c for c in lexcases.cases(args.tier) if c.prop == 'C06'], None, ('lex',), custom_work=lw)
+    return [fam1, fam2, fam3]
 
 
 def main():
